@@ -113,8 +113,9 @@ Proof.
       injection Hy as <-. destruct (C4 o b Hb Hp) as [E _]. congruence.
     + intros y Hy. rewrite !HW. assert (Hy' : nth_error (heap_of s) y = None).
       { apply nth_error_None. apply nth_error_None in Hy. lia. }
-      destruct (C5 y Hy') as (E1 & E2 & E3 & E4).
-      assert (y <> o) by (intros ->; congruence). destruct (Hoth y H) as [-> ->]. lia.
+      destruct (C5 y Hy') as (E1 & E2 & E3 & E4 & E5).
+      assert (y <> o) by (intros ->; congruence). destruct (Hoth y H) as [-> ->].
+      repeat split; try lia; assumption.
   - (* no dangling handle *)
     intros y Hy. rewrite Hheld in Hy. cbn [heap_of set_reg set_heap mk]. rewrite Hnth.
     destruct (Nat.eqb_spec o y) as [<-|Hne].
